@@ -44,11 +44,6 @@ Theorem C16_all_ranks_end_at_total : forall total rank world, in_range total ran
 Proof. exact c16_all_ranks_end_at_total. Qed.
 Print Assumptions C16_all_ranks_end_at_total.
 
-(* the predictor's integer part: max(1, ceil(b / log2 R)) without wrap-around (used by C10 and C04) *)
-Theorem C16_usage_k : forall b l, 1 <= b < 2 ^ 32 -> 1 <= l < 2 ^ 32 -> usage_k b l = Z.max 1 ((b + l - 1) / l).
-Proof. exact usage_k_correct. Qed.
-Print Assumptions C16_usage_k.
-
 (* non-vacuity: a concrete uneven split satisfies the hypotheses and shows the expected numbers *)
 Example C16_example : in_range 10 2 4 /\ sub_calls_plain 10 2 4 = 2 /\ discard_before 10 2 4 = 6 /\ discard_after 10 2 2 4 = 2.
 Proof. exact c16_example. Qed.
